@@ -206,17 +206,20 @@ def gen_wellformed(ctx, fmts, per_fmt, rng):
 def gen_concurrent(ctx, fmts, rng, n):
     """several handles open at the same time on different stores: opens, histories and closes interleave"""
     out = []
-    pool = [f for f in fmts if f.major != 0x16]
+    pool = list(fmts)
+    sd2 = [f for f in fmts if f.major == 0x16]
     routes = ["vio", "path", "fd1", "fd0"]
     for k in range(n):
         sc = Sc("conc-%d" % k, "concurrent")
         nh = rng.choice([2, 2, 3])
         live = []
         for j in range(nh):
-            f = rng.choice(pool)
+            # SD2 (a second descriptor for the resource fork, opened and closed inside sf_open) is the first handle of every fourth scenario:
+            # the handles opened after it get the numbers it used
+            f = rng.choice(sd2) if (sd2 and k % 4 == 0 and j == 0) else rng.choice(pool)
             ch = 1 if f.maxch < 2 or rng.random() < 0.5 else 2
             hn = "h%d" % j
-            sc.open(hn, "s%d" % j, "w", f.word, ch, rng.choice(routes))
+            sc.open(hn, "s%d" % j, "w", f.word, ch, "path" if f.major == 0x16 else rng.choice(routes), ext="sd2" if f.major == 0x16 else "x")
             live.append((hn, ch))
             hn2, ch2 = rng.choice(live)
             history(sc, rng, hn2, ch2, rng.choice([1, 2, 3]))
